@@ -23,7 +23,8 @@ Record wf_cc (a : arch) (cc : callconv) : Prop := mk_wf_cc {
            cc_natural cc = 16 /\ cc_sralign cc = mkq 16 16 8 1 /\ q2 (cc_srsize cc) = 0 /\ q3 (cc_srsize cc) = 0 /\
            0 <= q0 (cc_preserved cc) < 2 ^ 31 /\
            Z.testbit (q0 (cc_preserved cc)) 29 = true /\ Z.testbit (q0 (cc_preserved cc)) 30 = true /\
-           0 <= q1 (cc_preserved cc) < 2 ^ 32 /\ q2 (cc_preserved cc) = 0 /\ q3 (cc_preserved cc) = 0
+           0 <= q1 (cc_preserved cc) < 2 ^ 32 /\ q2 (cc_preserved cc) = 0 /\ q3 (cc_preserved cc) = 0 /\
+           (q1 (cc_srsize cc) = 8 \/ q1 (cc_srsize cc) = 16)
 }.
 
 Definition align_ok (a : Z) : Prop := a = 0 \/ pow2 a.
@@ -53,7 +54,7 @@ Proof.
    | first [ exists 3; split; [lia | reflexivity] | exists 4; split; [lia | reflexivity] ]
    | intros g; unfold qget; cbn; repeat (destruct (_ =? _)); lia
    | first [ discriminate | intros _; repeat split; try reflexivity; try (vm_compute; congruence) ]
-   | first [ discriminate | intros _; repeat split; try reflexivity; try (vm_compute; congruence) ] ]).
+   | first [ discriminate | intros _; repeat match goal with |- _ /\ _ => split end; try reflexivity; try (vm_compute; congruence); try (left; reflexivity); try (right; reflexivity) ] ]).
 Qed.
 
 Lemma classify_arch a plat ccid k : classify a plat ccid = Some k -> kind_arch k = a.
